@@ -161,6 +161,21 @@ func Read(path string, from, to int) ([]Input, error) {
 	return out, nil
 }
 
+// Exact returns a copy of b whose capacity equals its length (nil stays nil). Go bounds a
+// reslice b[i:j] by cap(b), not len(b): a decoder that peeks past the end of its input reads
+// whatever happens to follow in a buffer with spare capacity (append / io.ReadAll / pooled
+// buffers round capacities up) and only panics when there is none, as with a download buffer
+// sized by Content-Length. Every byte string a crashbox child hands to the code under test goes
+// through Exact, so an over-read of even one byte is a panic here.
+func Exact(b []byte) []byte {
+	if b == nil {
+		return nil
+	}
+	c := make([]byte, len(b)) // cap(make([]byte, n)) == n whatever size class the allocator picks
+	copy(c, b)
+	return c[:len(b):len(b)]
+}
+
 // ReachesBatchParser says whether a segment passes the outer framing every decoder
 // applies (size, magic, first frame inside the body, >= 61 bytes), i.e. whether the
 // call gets to per-batch/per-record parsing. Used only for the honest "non-trivial" count.
@@ -463,8 +478,14 @@ func ChildMain(targets []Target) error {
 	oneCall := os.Getenv("C34_CHILD_ONE_CALL") == "1"
 	calls := 0
 	for k := range inputs {
-		in := &inputs[k]
+		stored := &inputs[k]
 		for v := 0; v < nv; v++ {
+			// a fresh exact-capacity copy per call: no spare capacity behind the input, and a target
+			// that scribbles on its input cannot change what the next variant sees
+			in := &Input{Label: stored.Label, Data: Exact(stored.Data), Aux: Exact(stored.Aux)}
+			if cap(in.Data) != len(in.Data) || cap(in.Aux) != len(in.Aux) {
+				return fmt.Errorf("harness: input %d is not an exact-capacity slice (len %d cap %d / len %d cap %d)", from+k, len(in.Data), cap(in.Data), len(in.Aux), cap(in.Aux))
+			}
 			if k == 0 && v < fromVar {
 				continue
 			}
